@@ -2,7 +2,6 @@ package statsd
 
 import (
 	"context"
-	"sync"
 	"sync/atomic"
 
 	"github.com/ash2k/stager/wait"
@@ -32,7 +31,7 @@ type CloudHandler struct {
 	awaitingEvents  map[gostatsd.Source][]*gostatsd.Event
 	awaitingMetrics map[gostatsd.Source]*gostatsd.MetricMap
 	toLookupIPs     []gostatsd.Source
-	wg              sync.WaitGroup
+	wg              eventCounter
 
 	estimatedTags int
 }
